@@ -351,6 +351,54 @@ class LoopEv(Evaluator):
     def e_Subscript(self, n):
         return self.ev(n.value)[self.ev(n.slice)]
 
+    def e_Dict(self, n):
+        out = {}
+        for k, v in zip(n.keys, n.values):
+            if k is None:
+                inner = self.ev(v)
+                if not isinstance(inner, dict):
+                    raise Unknown("** of a non-dict")
+                out.update(inner)
+            else:
+                out[self.ev(k)] = self.ev(v)
+        return out
+
+    def e_ListComp(self, n):
+        if len(n.generators) != 1:
+            raise Unknown("nested comprehension")
+        g = n.generators[0]
+        out = []
+        saved = dict(self.env)
+        for x in self.iterate(self.ev(g.iter)):
+            self.assign(g.target, x)
+            if all(self.truth(self.ev(c)) for c in g.ifs):
+                out.append(self.ev(n.elt))
+        self.env = saved
+        return out
+
+    e_GeneratorExp = e_ListComp
+
+    def e_DictComp(self, n):
+        if len(n.generators) != 1:
+            raise Unknown("nested comprehension")
+        g = n.generators[0]
+        out = {}
+        saved = dict(self.env)
+        for x in self.iterate(self.ev(g.iter)):
+            self.assign(g.target, x)
+            if all(self.truth(self.ev(c)) for c in g.ifs):
+                out[self.ev(n.key)] = self.ev(n.value)
+        self.env = saved
+        return out
+
+    @staticmethod
+    def iterate(v):
+        if isinstance(v, dict):
+            return list(v.keys())
+        if isinstance(v, (list, tuple)):
+            return list(v)
+        raise Unknown("iteration over %r" % (v,))
+
 
 class Arr(list):
     pass
@@ -408,14 +456,46 @@ def default_table(repo, rel, fn, param):
     def hook(name, n, ev):
         if name in ("np.array", "numpy.array", "np.asarray") and n.args:
             v = ev.ev(n.args[0])
-            if isinstance(v, list):
-                return Arr(v)
-        if name in ("list", "tuple") and n.args:
-            return list(ev.ev(n.args[0]))
+            if isinstance(v, (list, tuple, dict)):
+                return Arr(LoopEv.iterate(v))
+        if name in ("list", "tuple", "sorted") and len(n.args) == 1 and not n.keywords:
+            v = LoopEv.iterate(ev.ev(n.args[0]))
+            return sorted(v) if name == "sorted" else list(v)
+        if name == "dict" and len(n.args) <= 1:
+            v = ev.ev(n.args[0]) if n.args else {}
+            out = dict(v) if isinstance(v, dict) else dict(tuple(x) for x in LoopEv.iterate(v))
+            out.update({k.arg: ev.ev(k.value) for k in n.keywords if k.arg})
+            return out
+        if name == "zip" and n.args:
+            return [list(t) for t in zip(*[LoopEv.iterate(ev.ev(a)) for a in n.args])]
+        if name == "len" and len(n.args) == 1:
+            return len(ev.ev(n.args[0]))
+        if isinstance(n.func, ast.Attribute) and n.func.attr in ("keys", "values", "items") and not n.args:
+            base = ev.ev(n.func.value)
+            if isinstance(base, dict):
+                return [list(kv) for kv in base.items()] if n.func.attr == "items" else list(getattr(base, n.func.attr)())
         if name in ("pd.Series", "pandas.Series"):
             kw = bind_args(["data", "index"], [ev.ev(a) for a in n.args], {k.arg: ev.ev(k.value) for k in n.keywords if k.arg in ("data", "index")})
+            if isinstance(kw.get("data"), dict) and kw.get("index") is None:       # pd.Series({index: value}): keys in insertion order
+                kw = {"data": list(kw["data"].values()), "index": list(kw["data"].keys())}
             return Obj("series", kw)
+        if name in helpers and helpers[name] is not None:
+            # a helper of the module that the normaliser left in place (it is in the inventory, or normalisation is off): follow it
+            f = helpers[name]
+            ps = [a.arg for a in f.args.args]
+            env = {}
+            for p_, d_ in zip(ps[len(ps) - len(f.args.defaults):], f.args.defaults):
+                env[p_] = ev.ev(d_)
+            env.update(bind_args(ps, [ev.ev(a) for a in n.args], {k.arg: ev.ev(k.value) for k in n.keywords if k.arg}))
+            sub = mk()
+            sub.env.update(env)
+            return sub.run(f.body)
         return NotImplemented
+
+    helpers = {}
+    for n in repo.tree(rel).body:
+        if isinstance(n, ast.FunctionDef) and n is not fn:
+            helpers[n.name] = n
 
     def mk():
         return LoopEv({"np": Obj("np"), "pd": Obj("pd"), "numpy": Obj("numpy")}, class_attr, hook)
@@ -1125,6 +1205,19 @@ WITNESSES = [
          old="        Pmax = 9.81*1000*np.exp(np.log(A/(B*(C+1)))/C)*(A - B*(np.exp(np.log(A/(B*(C+1)))/C))**C)\n",
          new="        Qmax = np.exp(np.log(A/(B*(C+1)))/C)\n        Pmax = 9.81*1000*Qmax*(A - B*Qmax**C)\n",
          also=[("        coeff = link.get_head_curve_coefficients()\n        A = coeff[0]\n        B = coeff[1]\n        C = coeff[2]\n", "        A, B, C = link.get_head_curve_coefficients()\n")]),
+    dict(name="quiet-default-tables-module-dicts-series-helper", file=ECON, silent=True,
+         old="def annual_network_cost(wn, tank_cost=None", new="_INCH = 0.0254\n_TANK_TABLE = {500: 14020, 1000: 30640, 2000: 61210, 3750: 87460, 5000: 122420, 10000: 174930}\n_PIPE_TABLE = {4: 8.31, 6: 10.1, 8: 12.1, 10: 12.96, 12: 15.22, 14: 16.62, 16: 19.41, 18: 22.2, 20: 24.66, 24: 35.69, 28: 40.08, 30: 42.6}\n_PUMP_TABLE = ((11310, 2850), (22620, 3225), (24880, 3307), (31670, 3563), (38000, 3820), (45240, 4133), (49760, 4339), (54280, 4554), (59710, 4823))\n\ndef _as_series(table, inch=False):\n    index = list(table.keys())\n    if inch:\n        index = np.array(index)*_INCH\n    return pd.Series(data=list(table.values()), index=index)\n\ndef annual_network_cost(wn, tank_cost=None",
+         also=[("        volume = [500, 1000, 2000, 3750, 5000, 10000] \n        cost =  [14020, 30640, 61210, 87460, 122420, 174930]\n        tank_cost = pd.Series(cost, volume)\n", "        tank_cost = _as_series(_TANK_TABLE)\n"),
+               ("        diameter = [4, 6, 8, 10, 12, 14, 16, 18, 20, 24, 28, 30] # inch\n        diameter = np.array(diameter)*0.0254 # m\n        cost =  [8.31, 10.1, 12.1, 12.96, 15.22, 16.62, 19.41, 22.2, 24.66, 35.69, 40.08, 42.6]\n        pipe_cost = pd.Series(cost, diameter)\n", "        pipe_cost = _as_series(_PIPE_TABLE, inch=True)\n"),
+               ("        Pmp = [11310, 22620, 24880, 31670, 38000, 45240, 49760, 54280, 59710]\n        cost =  [2850, 3225, 3307, 3563, 3820, 4133, 4339, 4554, 4823]\n        pump_cost = pd.Series(cost, Pmp)\n", "        pump_cost = pd.Series(dict(_PUMP_TABLE))\n"),
+               ("        network_cost = network_cost + tank_cost.iloc[idx]\n", "        network_cost += tank_cost.iloc[idx]\n")]),
+    dict(name="quiet-default-tables-series-from-dict-forms", file=ECON, silent=True,
+         old="        volume = [500, 1000, 2000, 3750, 5000, 10000] \n        cost =  [14020, 30640, 61210, 87460, 122420, 174930]\n        tank_cost = pd.Series(cost, volume)\n", new="        tank_cost = pd.Series({500: 14020, 1000: 30640, 2000: 61210, 3750: 87460, 5000: 122420, 10000: 174930})\n",
+         also=[("        Pmp = [11310, 22620, 24880, 31670, 38000, 45240, 49760, 54280, 59710]\n        cost =  [2850, 3225, 3307, 3563, 3820, 4133, 4339, 4554, 4823]\n        pump_cost = pd.Series(cost, Pmp)\n", "        d = {11310: 2850, 22620: 3225, 24880: 3307, 31670: 3563, 38000: 3820, 45240: 4133, 49760: 4339, 54280: 4554, 59710: 4823}\n"
+                "        pump_cost = pd.Series(index=list(d), data=[d[k] for k in d])\n")]),
+    dict(name="module-dict-table-entry", file=ECON, rule="R-C20-5",
+         old="def annual_network_cost(wn, tank_cost=None", new="_INCH = 0.0254\n_TANK_TABLE = {500: 14020, 1000: 30640, 2000: 61210, 3750: 87640, 5000: 122420, 10000: 174930}\n_PIPE_TABLE = {4: 8.31, 6: 10.1, 8: 12.1, 10: 12.96, 12: 15.22, 14: 16.62, 16: 19.41, 18: 22.2, 20: 24.66, 24: 35.69, 28: 40.08, 30: 42.6}\n_PUMP_TABLE = ((11310, 2850), (22620, 3225), (24880, 3307), (31670, 3563), (38000, 3820), (45240, 4133), (49760, 4339), (54280, 4554), (59710, 4823))\n\ndef _as_series(table, inch=False):\n    index = list(table.keys())\n    if inch:\n        index = np.array(index)*_INCH\n    return pd.Series(data=list(table.values()), index=index)\n\ndef annual_network_cost(wn, tank_cost=None",
+         also=[("        volume = [500, 1000, 2000, 3750, 5000, 10000] \n        cost =  [14020, 30640, 61210, 87460, 122420, 174930]\n        tank_cost = pd.Series(cost, volume)\n", "        tank_cost = _as_series(_TANK_TABLE)\n")]),
     dict(name="quiet-default-tables-renamed-locals", file=ECON, silent=True,
          old="        volume = [500, 1000, 2000, 3750, 5000, 10000] \n        cost =  [14020, 30640, 61210, 87460, 122420, 174930]\n        tank_cost = pd.Series(cost, volume)\n",
          new="        tank_cost = pd.Series(index=[500, 1000, 2000, 3750, 5000, 10000], data=[14020, 30640, 61210, 87460, 122420, 174930])\n",
